@@ -302,14 +302,18 @@ def optsBin (L : Nat) (inp : Bytes) : Except Code (Opts × Bytes) :=
       | some (L2, r3) =>
         if L ≠ L2 then .error .badFormat else .ok (⟨o4 ++ more, nOpts, vb, vbt⟩, r3)
 
-/-! ## suffixes -/
+/-! ## suffixes
+
+`fx = true` everywhere below models the reader with the proposed patch
+`repo_patches/C14-sol-reader-bounds.diff` applied; `fx = false` is the code as it is. -/
 
 inductive HeadCheck | bad | ub | ok
   deriving DecidableEq, Repr
 
 /-- `sufheadcheck` (return value and the signed overflows on the way) -/
-def sufheadcheck (kind n namelen tablen tablines : Int) : HeadCheck :=
+def sufheadcheck (fx : Bool) (kind n namelen tablen tablines : Int) : HeadCheck :=
   if kind < 0 ∨ kind > 15 ∨ n < 0 ∨ namelen < 2 ∨ tablen < 0 then .bad
+  else if fx = true ∧ (namelen > 268435455 ∨ tablen > 268435455) then .bad
   else if tablen ≠ 0 ∧ tablen + 1 > 2147483647 then .ub
   else if tablen ≠ 0 ∧ (tablines > tablen + 1 ∨ tablines < 1) then .bad
   else if 2 * namelen > 2147483647 ∨ tablen + 2 * namelen > 2147483647
@@ -318,17 +322,22 @@ def sufheadcheck (kind n namelen tablen tablines : Int) : HeadCheck :=
 
 def sufKind (kind : Int) : RdKind := if (kind.toNat / 4) % 2 = 1 then .dpair else .ipair
 
-/-- the 512-byte stack buffer of `gsufread`; `uninit` marks bytes never written -/
-def uninit : Nat := 1000
-def bufInit : Bytes := List.replicate 512 uninit
-def bufStore (buf chunk : Bytes) : Bytes := chunk ++ 0 :: buf.drop (chunk.length + 1)
-def bufRead (buf : Bytes) (i : Nat) : Except Code Nat :=
+/-- the 512-byte stack buffer of `gsufread`; `none` marks bytes never written -/
+abbrev Buf := List (Option Nat)
+def bufInit : Buf := List.replicate 512 none
+def bufStore (buf : Buf) (chunk : Bytes) : Buf := chunk.map some ++ some 0 :: buf.drop (chunk.length + 1)
+def bufRead (buf : Buf) (i : Nat) : Except Code Nat :=
   if i ≥ 512 then .error .ubOob
-  else
-    let v := buf.getD i uninit
-    if v = uninit then .error .ubUninit else .ok v
+  else match buf.getD i none with
+    | none => .error .ubUninit
+    | some v => .ok v
+/-- the C string at the start of the buffer -/
+def bufCstr : Buf → Bytes
+  | [] => []
+  | none :: _ => []
+  | some c :: r => if c = 0 then [] else c :: bufCstr r
 
-/-- write `data` at offset `off` of `region` (never beyond its end: see `C14_table_writes_in_bounds`) -/
+/-- write `data` at offset `off` of `region` (never beyond its end: see `C14_table_region`) -/
 def writeAt (region : Bytes) (off : Nat) (data : Bytes) : Bytes :=
   region.take off ++ data ++ region.drop (off + data.length)
 
@@ -341,66 +350,69 @@ def tabLines : Nat → Bytes → Nat → Nat → Bytes → Except Code (Bytes ×
     | some (chunk, rest) =>
       tabLines k (writeAt region s (chunk ++ [0])) (s + (cstr chunk).length) se rest
 
-def lget5 (s : Bytes) : Except Code (List Nat) :=
-  match lget s with
+def lget5 (fx : Bool) (s : Bytes) : Except Code (List Nat) :=
+  match lget fx s with
   | .fail => .error .badLine | .ub => .error .ubOverflow
   | .ok a s =>
-  match lget s with
+  match lget fx s with
   | .fail => .error .badLine | .ub => .error .ubOverflow
   | .ok b s =>
-  match lget s with
+  match lget fx s with
   | .fail => .error .badLine | .ub => .error .ubOverflow
   | .ok c s =>
-  match lget s with
+  match lget fx s with
   | .fail => .error .badLine | .ub => .error .ubOverflow
   | .ok d s =>
-  match lget s with
+  match lget fx s with
   | .fail => .error .badLine | .ub => .error .ubOverflow
   | .ok e _ => .ok [a, b, c, d, e]
 
+/-- the `buf[namelen-1]` / `buf[namelen]` tests on the name line -/
+def nameEnd (buf : Buf) (namelen : Nat) : Except Code Bool :=
+  match bufRead buf (namelen - 1) with
+  | .error c => .error c
+  | .ok c1 =>
+    if c1 = 10 then .ok true
+    else if c1 ≠ 13 then .ok false
+    else match bufRead buf namelen with
+      | .error c => .error c
+      | .ok c2 => .ok (c2 = 10)
+
 /-- one suffix of the text format after its header line was parsed and checked:
-name line, table, returns (name, table, rest of file, buf) -/
-def gsufBody (buf : Bytes) (namelen tablen tablines : Nat) (inp : Bytes) :
-    Except Code (Bytes × Bytes × Bytes × Bytes) :=
+name line, table; returns (name, table, rest of file, buf) -/
+def gsufBody (fx : Bool) (buf : Buf) (namelen tablen tablines : Nat) (inp : Bytes) :
+    Except Code (Bytes × Bytes × Bytes × Buf) :=
   match fgets 511 inp with
   | none => .error .badLine
   | some (chunk, inp) =>
     let buf := bufStore buf chunk
-    match bufRead buf (namelen - 1) with
+    if fx = true ∧ (cstr chunk).length < namelen then .error .badLine else
+    match nameEnd buf namelen with
     | .error c => .error c
-    | .ok c1 =>
-      let endOk : Except Code Bool :=
-        if c1 = 10 then .ok true
-        else if c1 ≠ 13 then .ok false
-        else match bufRead buf namelen with
-          | .error c => .error c
-          | .ok c2 => .ok (c2 = 10)
-      match endOk with
+    | .ok false => .error .badLine
+    | .ok true =>
+      let buf := buf.set (namelen - 1) (some 0)
+      let name := bufCstr buf
+      if tablen = 0 then .ok (name, [], inp, buf) else
+      match tabLines (tablines - 1) (List.replicate tablen 0) 0 tablen inp with
       | .error c => .error c
-      | .ok false => .error .badLine
-      | .ok true =>
-        let buf := buf.set (namelen - 1) 0
-        let name := cstr buf
-        if tablen = 0 then .ok (name, [], inp, buf) else
-        match tabLines (tablines - 1) (List.replicate tablen 0) 0 tablen inp with
-        | .error c => .error c
-        | .ok (region, s, inp) =>
-          match fgets 511 inp with
-          | none => .error .earlyEof
-          | some (chunk, inp) =>
-            let buf := bufStore buf chunk
-            let l := cstr chunk
-            if l.length = 0 then .error .badLine
-            else if l.getLast? ≠ some 10 then .error .badLine
+      | .ok (region, s, inp) =>
+        match fgets 511 inp with
+        | none => .error .earlyEof
+        | some (chunk, inp) =>
+          let buf := bufStore buf chunk
+          let l := cstr chunk
+          if l.length = 0 then .error .badLine
+          else if l.getLast? ≠ some 10 then .error .badLine
+          else
+            let L := l.length - 1
+            if L ≥ tablen - s then .error .badLine
             else
-              let L := l.length - 1
-              if L ≥ tablen - s then .error .badLine
-              else
-                let L' := if L ≠ 0 ∧ l.getD (L - 1) 0 = 13 then L - 1 else L
-                let region := if L' = 0 then region else writeAt region s (l.take L')
-                .ok (name, cstr region, inp, buf)
+              let L' := if L ≠ 0 ∧ l.getD (L - 1) 0 = 13 then L - 1 else L
+              let region := if L' = 0 then region else writeAt region s (l.take L')
+              .ok (name, cstr region, inp, buf)
 
-def gsuf : Nat → Policy → Bytes → Bytes → Result
+def gsuf (fx : Bool) : Nat → Policy → Buf → Bytes → Result
   | 0, _, _, _ => err .fuel
   | f+1, pol, buf, inp =>
     match fgets 511 inp with
@@ -409,7 +421,7 @@ def gsuf : Nat → Policy → Bytes → Bytes → Result
       let buf := bufStore buf chunk
       let line := cstr chunk
       if line.take 7 ≠ str "suffix " then err .badLine else
-      match lget5 (line.drop 7) with
+      match lget5 fx (line.drop 7) with
       | .error c => err c
       | .ok h =>
         let kind := h.getD 0 0
@@ -417,20 +429,20 @@ def gsuf : Nat → Policy → Bytes → Bytes → Result
         let namelen := h.getD 2 0
         let tablen := h.getD 3 0
         let tablines := h.getD 4 0
-        match sufheadcheck kind n namelen tablen tablines with
+        match sufheadcheck fx kind n namelen tablen tablines with
         | .bad => err .badLine
         | .ub => err .ubOverflow
         | .ok =>
-          match gsufBody buf namelen tablen tablines inp with
+          match gsufBody fx buf namelen tablen tablines inp with
           | .error c => err c
           | .ok (name, table, inp, buf) =>
             let v := runVec false (sufKind kind) pol.suf n inp
             Result.cons (.suffix false kind namelen tablen name table v.1)
-              (afterVec v.1 fun _ => gsuf f pol buf v.2)
+              (afterVec v.1 fun _ => gsuf fx f pol buf v.2)
 
 def sufMagic : Bytes := [10, 83, 117, 102, 102, 105, 120, 10]   -- "\nSuffix\n"
 
-def bsuf : Nat → Policy → Bytes → Result
+def bsuf (fx : Bool) : Nat → Policy → Bytes → Result
   | 0, _, _ => err .fuel
   | f+1, pol, inp =>
     match readU32 inp with
@@ -444,9 +456,10 @@ def bsuf : Nat → Policy → Bytes → Result
         let n := toInt32 (le32 ((h.drop 12).take 4))
         let namelen := toInt32 (le32 ((h.drop 16).take 4))
         let tablen := toInt32 (le32 ((h.drop 20).take 4))
-        if tablen = -2147483648 then err .ubOverflow else
+        -- `SR.tablines = SR.h.tablen - 1` (patched: only for tablen > 0)
+        if fx = false ∧ tablen = -2147483648 then err .ubOverflow else
         if h.take 8 ≠ sufMagic then err .badSuffix else
-        match sufheadcheck kind n namelen tablen (tablen - 1) with
+        match sufheadcheck fx kind n namelen tablen (tablen - 1) with
         | .bad => err .badSuffix
         | .ub => err .ubOverflow
         | .ok =>
@@ -461,12 +474,12 @@ def bsuf : Nat → Policy → Bytes → Result
                 (afterVec v.1 fun _ =>
                   match readU32 v.2 with
                   | none => err .earlyEof
-                  | some (L1, inp) => if L ≠ L1 then err .earlyEof else bsuf f pol inp)
+                  | some (L1, inp) => if L ≠ L1 then err .earlyEof else bsuf fx f pol inp)
 
 /-! ## the reader -/
 
 /-- text format after the primal vector -/
-def textTail (pol : Policy) (inp : Bytes) : Result :=
+def textTail (fx : Bool) (pol : Policy) (inp : Bytes) : Result :=
   match fgets 512 inp with
   | none => done
   | some (chunk, inp) =>
@@ -478,16 +491,10 @@ def textTail (pol : Policy) (inp : Bytes) : Result :=
     let s2 := s1.drop k1
     let k2 := strtodLen s2
     if k2 = 0 then done else
-    Result.cons (.objno false (s1.take k1) (s2.take k2)) (gsuf (inp.length + 1) pol bufInit inp)
-
-def drain : Nat → Bytes → Bytes
-  | 0, inp => inp
-  | f+1, inp => match readU32 inp with
-    | none => []
-    | some (_, r) => drain f r
+    Result.cons (.objno false (s1.take k1) (s2.take k2)) (gsuf fx (inp.length + 1) pol bufInit inp)
 
 /-- binary format after the closing record length of the primal vector -/
-def binTail (pol : Policy) (inp : Bytes) : Result :=
+def binTail (fx : Bool) (pol : Policy) (inp : Bytes) : Result :=
   match readU32 inp with
   | none => done
   | some (L, inp) =>
@@ -502,7 +509,7 @@ def binTail (pol : Policy) (inp : Bytes) : Result :=
         -- `Objno[1]` keeps its initial value -2 when only one integer is present
         let code := if L = 8 then ob.drop 4 else [254, 255, 255, 255]
         Result.cons (.objno true (ob.take 4) code)
-          (if L = 8 then bsuf (inp.length + 1) pol inp else done)
+          (if L = 8 then bsuf fx (inp.length + 1) pol inp else done)
 
 /-- record-length check `fread(&L) && L == L1`, failure = `ReportBadFormat` -/
 def expectLen (L1 : Nat) (inp : Bytes) : Option Bytes :=
@@ -512,64 +519,81 @@ def expectLen (L1 : Nat) (inp : Bytes) : Option Bytes :=
 
 def u32 (x : Nat) : Nat := x % 4294967296
 
+/-- binary: closing record length of the primal vector, then the objno/suffix tail -/
+def afterPrimalBin (fx : Bool) (pol : Policy) (i : Nat) (inp : Bytes) : Result :=
+  match expectLen (u32 (i * 8)) inp with
+  | none => err .badFormat
+  | some inp => binTail fx pol inp
+
+/-- the primal vector (`i` values offered) and what follows -/
+def primalPart (fx : Bool) (pol : Policy) (binary : Bool) (i : Nat) (inp : Bytes) : Result :=
+  if binary then
+    if i = 0 then afterPrimalBin fx pol i inp else
+      let v := runVec true .dbl pol.primal i inp
+      Result.cons (.primal true v.1) (afterVec v.1 fun _ => afterPrimalBin fx pol i v.2)
+  else
+    if i = 0 then textTail fx pol inp else
+      let v := runVec false .dbl pol.primal i inp
+      Result.cons (.primal false v.1) (afterVec v.1 fun _ => textTail fx pol v.2)
+
+/-- binary: closing length of the dual record and opening length of the primal record -/
+def afterDual (fx : Bool) (pol : Policy) (binary : Bool) (j i : Nat) (inp : Bytes) : Result :=
+  if binary then
+    match expectLen (u32 (j * 8)) inp with
+    | none => err .badFormat
+    | some inp =>
+      match expectLen (u32 (i * 8)) inp with
+      | none => err .badFormat
+      | some inp => primalPart fx pol true i inp
+  else primalPart fx pol false i inp
+
+/-- the dual vector (`j` values offered) and what follows -/
+def dualPart (fx : Bool) (pol : Policy) (binary : Bool) (j i : Nat) (inp : Bytes) : Result :=
+  if j = 0 then afterDual fx pol binary j i inp else
+    let v := runVec binary .dbl pol.dual j inp
+    Result.cons (.dual binary v.1) (afterVec v.1 fun _ => afterDual fx pol binary j i v.2)
+
+/-- `OnAMPLOptions` verdict and the 'Wrong NumVars/NumAlgCons' checks:
+(j = #duals, i = #primals, rest of input) or the error result -/
+def preCheck (nVars nCons : Nat) (pol : Policy) (binary : Bool) (o : Option Opts) (inp : Bytes) :
+    Except Result (Nat × Nat × Bytes) :=
+  match o with
+  | none => .ok (nCons, nVars, inp)
+  | some o =>
+    if pol.optRv ≠ 0 then .error ⟨.badOptions, [], false⟩ else
+    let nv := o.z 3
+    let nc := o.z 1
+    if nv > nVars ∨ nv < 0 then .error (err .badFormat) else
+    if nc > nCons ∨ nc < 0 then .error (err .badFormat) else
+    if binary then
+      match readU32 inp with
+      | none => .error (err .earlyEof)
+      | some (L, r) => if L ≠ u32 (nc.toNat * 8) then .error (err .badFormat) else .ok (nc.toNat, nv.toNat, r)
+    else .ok (nc.toNat, nv.toNat, inp)
+
+def optEvent (o : Option Opts) (r : Result) : Result :=
+  match o with
+  | none => r
+  | some o => Result.cons (.options o.opts o.needVbtol o.vbtol) r
+
 /-- everything after the message and options blocks were read -/
-def body (nVars nCons : Nat) (pol : Policy) (binary : Bool) (o : Option Opts) (inp : Bytes) : Result :=
-  -- options delivered, counts checked
-  let pre : Except Result (Nat × Nat × Bytes) :=        -- (j = #duals, i = #primals, input)
-    match o with
-    | none => .ok (nCons, nVars, inp)
-    | some o =>
-      if pol.optRv ≠ 0 then .error ⟨.badOptions, [], false⟩ else
-      let nv := o.z 3
-      let nc := o.z 1
-      if nv > nVars ∨ nv < 0 then .error (err .badFormat) else
-      if nc > nCons ∨ nc < 0 then .error (err .badFormat) else
-      if binary then
-        match readU32 inp with
-        | none => .error (err .earlyEof)
-        | some (L, r) => if L ≠ u32 (nc.toNat * 8) then .error (err .badFormat) else .ok (nc.toNat, nv.toNat, r)
-      else .ok (nc.toNat, nv.toNat, inp)
-  let optEv : Result → Result := match o with
-    | none => id
-    | some o => Result.cons (.options o.opts o.needVbtol o.vbtol)
-  optEv <|
-  match pre with
-  | .error r => r
-  | .ok (j, i, inp) =>
-    let afterDual : Bytes → Result := fun inp =>
-      if binary then
-        match expectLen (u32 (j * 8)) inp with
-        | none => err .badFormat
-        | some inp =>
-          match expectLen (u32 (i * 8)) inp with
-          | none => err .badFormat
-          | some inp =>
-            let afterPrimal : Bytes → Result := fun inp =>
-              match expectLen (u32 (i * 8)) inp with
-              | none => err .badFormat
-              | some inp => binTail pol inp
-            if i = 0 then afterPrimal inp else
-              let v := runVec true .dbl pol.primal i inp
-              Result.cons (.primal true v.1) (afterVec v.1 fun _ => afterPrimal v.2)
-      else
-        if i = 0 then textTail pol inp else
-          let v := runVec false .dbl pol.primal i inp
-          Result.cons (.primal false v.1) (afterVec v.1 fun _ => textTail pol v.2)
-    if j = 0 then afterDual inp else
-      let v := runVec binary .dbl pol.dual j inp
-      Result.cons (.dual binary v.1) (afterVec v.1 fun _ => afterDual v.2)
+def body (fx : Bool) (nVars nCons : Nat) (pol : Policy) (binary : Bool) (o : Option Opts) (inp : Bytes) : Result :=
+  optEvent o <|
+    match preCheck nVars nCons pol binary o inp with
+    | .error r => r
+    | .ok (j, i, inp) => dualPart fx pol binary j i inp
 
 /-- the message as the handler sees it (`solve_msg_.c_str()`), if it is delivered at all -/
-def msgEvent (binary : Bool) (st : MsgState) : Result → Result :=
+def msgEvent (binary : Bool) (st : MsgState) (r : Result) : Result :=
   let m := if st.nbs ≠ 0 then st.msg.dropWhile (· = 8) else st.msg
-  if m.length = 0 then id
-  else Result.cons (.msg (cstr (if binary then m ++ [10] else m)) st.nbs)
+  if m.length = 0 then r
+  else Result.cons (.msg (cstr (if binary then m ++ [10] else m)) st.nbs) r
 
 def skipNl : Bytes → Bytes
   | [] => []
   | c :: cs => if c = 10 ∨ c = 13 then skipNl cs else c :: cs
 
-def readText (nVars nCons : Nat) (pol : Policy) (inp : Bytes) : Result :=
+def readText (fx : Bool) (nVars nCons : Nat) (pol : Policy) (inp : Bytes) : Result :=
   match msgText (inp.length + 1) inp ⟨[], 0, true⟩ with
   | .error c => err c
   | .ok (st, inp) =>
@@ -588,9 +612,9 @@ def readText (nVars nCons : Nat) (pol : Policy) (inp : Bytes) : Result :=
       | _ => .ok (none, inp)
     match hdr with
     | .error c => err c
-    | .ok (o, inp) => msgEvent false st (body nVars nCons pol false o inp)
+    | .ok (o, inp) => msgEvent false st (body fx nVars nCons pol false o inp)
 
-def readBin (nVars nCons : Nat) (pol : Policy) (inp : Bytes) : Result :=
+def readBin (fx : Bool) (nVars nCons : Nat) (pol : Policy) (inp : Bytes) : Result :=
   match msgBin (inp.length + 1) inp ⟨[], 0, true⟩ with
   | .error c => err c
   | .ok (st, inp) =>
@@ -601,12 +625,12 @@ def readBin (nVars nCons : Nat) (pol : Policy) (inp : Bytes) : Result :=
       if L2 ≤ 24 ∧ L2 % 4 = 0 then
         match optsBin L inp with
         | .error c => err c
-        | .ok (o, inp) => msgEvent true st (body nVars nCons pol true (some o) inp)
+        | .ok (o, inp) => msgEvent true st (body fx nVars nCons pol true (some o) inp)
       else if L ≠ u32 (nCons * 8) then err .badFormat
-      else msgEvent true st (body nVars nCons pol true none inp)
+      else msgEvent true st (body fx nVars nCons pol true none inp)
 
 /-- `mp::ReadSOLFile` on a file with the given contents (the file exists) -/
-def readSol (nVars nCons : Nat) (pol : Policy) (bytes : Bytes) : Result :=
+def readSol (fx : Bool) (nVars nCons : Nat) (pol : Policy) (bytes : Bytes) : Result :=
   match readU32 bytes with
   | some (6, r) =>
     (match fread 6 r with
@@ -615,7 +639,7 @@ def readSol (nVars nCons : Nat) (pol : Policy) (bytes : Bytes) : Result :=
        if w ≠ str "binary" then err .badFormat else
        match readU32 r2 with
        | none => err .badFormat
-       | some (L, r3) => if L ≠ 6 then err .badFormat else readBin nVars nCons pol r3)
-  | _ => readText nVars nCons pol bytes
+       | some (L, r3) => if L ≠ 6 then err .badFormat else readBin fx nVars nCons pol r3)
+  | _ => readText fx nVars nCons pol bytes
 
 end MpVerif.C14
